@@ -237,13 +237,48 @@ func (ex *Exec) instr(fr *Frame, st *State, in ssa.Instruction) {
 		fr.Regs[t] = ex.sliceOp(fr, st, t)
 	case *ssa.SliceToArrayPointer:
 		x := st.Resolve(ex.operand(fr, st, t.X))
+		n := t.Type().Underlying().(*types.Pointer).Elem().Underlying().(*types.Array).Len()
+		if ch, isCh := x.(*Choice); isCh {
+			// a merged slice value (e.g. nil on the failing path of a getter, the buffer otherwise): convert each
+			// alternative; the length requirement is stated on the merged length
+			var conv func(v Val) (Val, *sym.Term, bool)
+			conv = func(v Val) (Val, *sym.Term, bool) {
+				switch y := st.Resolve(v).(type) {
+				case *Choice:
+					a, la, oka := conv(y.A)
+					b, lb, okb := conv(y.B)
+					if !oka || !okb {
+						return nil, nil, false
+					}
+					return MergeVal(y.Cond, a, b), sym.Ite(y.Cond, la, lb), true
+				case *SliceVal:
+					if y.Base == nil {
+						return Nil{}, sym.ConstI(0), true
+					}
+					return &Ptr{Obj: y.Base.Obj, Path: y.Base.Path, View: true}, y.Len, true
+				case Nil:
+					return Nil{}, sym.ConstI(0), true
+				}
+				return nil, nil, false
+			}
+			if r, l, okc := conv(ch); okc {
+				l = st.Simplify(l)
+				ex.event(Event{Kind: EvIndex, Pos: t.Pos(), Term: l, Msg: fmt.Sprintf("slice-to-array-pointer needs len >= %d", n)})
+				if lc, isC := l.Int64(); !isC {
+					ex.bound(sym.ConstI(n), l, false, t.Pos(), "array length <= slice length")
+				} else if lc < n {
+					ex.event(Event{Kind: EvIndexOOB, Pos: t.Pos(), Term: l, Msg: fmt.Sprintf("slice of length %d converted to array pointer of length %d", lc, n)})
+				}
+				fr.Regs[t] = r
+				return
+			}
+		}
 		sv, ok := x.(*SliceVal)
 		if !ok || sv.Base == nil {
 			ex.fail("slice-to-array-pointer of %s at %s", ValString(x), ex.Position(t.Pos()))
 			fr.Regs[t] = &Iface{Opaque: sym.Fresh(sym.Any, "badptr", 0)}
 			return
 		}
-		n := t.Type().Underlying().(*types.Pointer).Elem().Underlying().(*types.Array).Len()
 		ex.event(Event{Kind: EvIndex, Pos: t.Pos(), Term: sv.Len, Msg: fmt.Sprintf("slice-to-array-pointer needs len >= %d", n)})
 		if _, isC := sv.Len.Int64(); !isC {
 			ex.bound(sym.ConstI(n), sv.Len, false, t.Pos(), "array length <= slice length")
